@@ -1,6 +1,9 @@
 """C05 — validity windows plus skew.  One-dimensional sweeps of each of the six timestamps over the
 quantifier's offsets x skew x syntax are exhaustive; pairs/triples are sampled."""
 import copy
+import json
+
+import spflow as F
 
 import scenario as S
 from props._sp_common import *  # noqa: F401,F403
@@ -104,6 +107,46 @@ def gen_cases(rng, tier):
                     c["resp"]["assertions"][0]["authn"] = []
                 c["tag"] = "attr:%s@%s/skew=%s" % (stamp, off, skew)
                 yield c
+    # lexical forms beyond UTC-with-Z: no designator (the library reads it as UTC) and numeric zone designators (legal
+    # xs:dateTime, not legal SAML; the library does not read them, the message yields nothing).  The instants of the case
+    # are the TRUE instants: a library that accepted a designator and then ignored it would be off by the zone shift
+    for syntax in list(F.OFFSETS) + ["nozone"]:
+        for skew in (None, 60):
+            for stamp in STAMPS:
+                for off in (None, -43200 - 61, -19800 - 61, -7200 - 61, -3600, -61, -1, 1, 61, 3600, 7200 + 61, 12600 + 61,
+                            43200 + 61, DAY + 3600, -DAY - 3600):
+                    if stamp != "ii" and abs(off or 0) > DAY:
+                        continue
+                    c = place(fresh(skew, syntax), stamp, off)
+                    c["env"]["time_form"] = F.time_form(syntax)
+                    c["tag"] = "%s@%s/skew=%s/%s" % (stamp, off, skew, syntax)
+                    if stamp in ("c_nooa", "sc_nb") and off in (-61, 61):
+                        yield C.as_factory(json.loads(json.dumps(c)))
+                        c2 = json.loads(json.dumps(c))
+                        c2["env"]["kind"] = "attr"
+                        c2["env"]["binding"] = "soap"
+                        c2["return_addrs"] = []
+                        c2["resp"]["destination"] = None
+                        c2["tag"] = "attr:" + c2["tag"]
+                        yield c2
+                    yield c
+    # the other public entry points (saml2.response.authn_response + loads + verify, and saml2.response.response_factory +
+    # verify): the same window sweeps, solicited and with unsolicited Responses allowed
+    for via in (None, "response_factory"):
+        for uns in (False, True):
+            for skew in (None, 0, 60, 180):
+                for stamp in STAMPS:
+                    for off in offsets(skew):
+                        if uns and off is not None and abs(off) > 3600 and stamp != "ii":
+                            continue
+                        c = C.as_factory(place(fresh(skew, "frac" if (off or 0) % 2 else "z"), stamp, off))
+                        if via:
+                            c["env"]["via"] = via
+                        c["env"]["time_form"] = F.time_form(c["syntax"])
+                        if uns:
+                            c["cfg"]["allow_unsolicited"] = True
+                        c["tag"] = "%s@%s/skew=%s/uns=%s/via=%s" % (stamp, off, skew, uns, via or "authn_response")
+                        yield c
     # further fractional-second syntaxes (1, 6, 7 and 9 digits, all zeros) on every timestamp at the deciding offsets
     for syntax in ("frac1", "frac6", "frac7", "frac9", "frac0s"):
         for stamp in STAMPS:
